@@ -16,10 +16,16 @@
 (*                         that only shows when the focused widget is not   *)
 (*                         part of the last frame: the path is then just    *)
 (*                         the root)                                        *)
+(*   FastPath       TRUE : the enter/leave diff is skipped and the old hit  *)
+(*                         list kept when the deepest hit and the depth are *)
+(*                         unchanged (a regression that shows when an       *)
+(*                         ancestor was replaced between two frames)        *)
+(* T is a session [n, pars, caps, lays] (one parent relation per layout);   *)
+(* im.lay is the layout of the last frame.                                  *)
 (* Handlers are modelled by a table: cons = <<w, ph>> (that handler         *)
 (* consumes the event) or <<>>.                                             *)
 EXTENDS Integers, Sequences, FiniteSets
-CONSTANTS StalePath, AllSiblings, EnterOnFocusIn, StaleTarget
+CONSTANTS StalePath, AllSiblings, EnterOnFocusIn, StaleTarget, FastPath
 
 R == INSTANCE Routing
 
@@ -27,11 +33,11 @@ Nil == [c |-> "nil"]
 Offer(w, ph, cls, ret) == [w |-> w, ph |-> ph, cls |-> cls, ret |-> ret]
 Consume == [c |-> "consume"]
 
-Im0 == [focused |-> 1, path |-> <<1>>, hits |-> <<>>, mouse |-> <<>>]
+Im0 == [focused |-> 1, path |-> <<1>>, hits |-> <<>>, mouse |-> <<>>, lay |-> 1]
 
-(* focusHandler.findPath on the last frame (layout 1 of T): the path to f    *)
+(* focusHandler.findPath on the frame drawn from layout k: the path to f     *)
 (* when f is part of that frame, else just the root                          *)
-FindPath(T, f) == IF R!Present(T, T.lays[1], f) THEN R!PathTo(T, f) ELSE <<1>>
+FindPath(T, k, f) == IF R!Present(R!At(T, k), T.lays[k], f) THEN R!PathTo(R!At(T, k), f) ELSE <<1>>
 
 (* the three loops shared by focusHandler.handleEvent and                    *)
 (* mouseHandler.handleEvent: capture over the whole list (the last element   *)
@@ -63,7 +69,7 @@ Dispatch(T, list, target, cls, cons, ret) ==
 (* focusHandler.focusWidget *)
 Focus(T, im, f) ==
   IF im.focused = f THEN [im |-> im, offers |-> <<>>]
-  ELSE [im |-> [im EXCEPT !.focused = f, !.path = IF StalePath THEN @ ELSE FindPath(T, f)],
+  ELSE [im |-> [im EXCEPT !.focused = f, !.path = IF StalePath THEN @ ELSE FindPath(T, im.lay, f)],
         offers |-> <<Offer(im.focused, "tgt", "fout", Nil), Offer(f, "tgt", "fin", Nil)>>]
 
 (* a key: cons consumes it; when fkey > 0 the target handler answers with    *)
@@ -75,29 +81,40 @@ Key(T, im, cls, cons, fkey) ==
       foc == IF fkey > 0 /\ \E i \in 1..Len(d) : d[i].ph = "tgt" THEN Focus(T, im, fkey) ELSE [im |-> im, offers |-> <<>>]
   IN [im |-> foc.im, offers |-> d \o foc.offers]
 
-(* hitTest *)
+(* hitTest on one tree t = [n, parent, ...] *)
 RECURSIVE Hits(_, _, _, _, _)
-Hits(T, L, w, px, py) ==
-  LET kids == {k \in 1..T.n : T.parent[k] = w /\ R!In(L[k], px, py)}
+Hits(t, L, w, px, py) ==
+  LET kids == {k \in 1..t.n : t.parent[k] = w /\ R!In(L[k], px, py)}
       RECURSIVE Each(_)
       Each(S) == IF S = {} THEN <<>>
                  ELSE LET k == CHOOSE m \in S : \A o \in S : m <= o
-                      IN Hits(T, L, k, px - L[k].x, py - L[k].y) \o Each(S \ {k})
+                      IN Hits(t, L, k, px - L[k].x, py - L[k].y) \o Each(S \ {k})
   IN IF kids = {} THEN <<<<w, px, py>>>>
      ELSE IF AllSiblings THEN <<<<w, px, py>>>> \o Each(kids)
      ELSE LET top == CHOOSE k \in kids : \A j \in kids : R!OnTop(L, k, j)
-          IN <<<<w, px, py>>>> \o Hits(T, L, top, px - L[top].x, py - L[top].y)
+          IN <<<<w, px, py>>>> \o Hits(t, L, top, px - L[top].x, py - L[top].y)
 
-(* mouseHandler.update + handleEvent *)
-Mouse(T, im, L, x, y, cls, cons) ==
-  LET hits == IF x >= 0 /\ y >= 0 /\ x < L[1].w /\ y < L[1].h THEN Hits(T, L, 1, x, y) ELSE <<>>
+(* mouseHandler.update against the frame drawn from layout k *)
+Update(T, im, k) ==
+  IF im.mouse = <<>> THEN [im |-> im, offers |-> <<>>]
+  ELSE
+  LET L == T.lays[k]
+      x == im.mouse[1]
+      y == im.mouse[2]
+      hits == IF x >= 0 /\ y >= 0 /\ x < L[1].w /\ y < L[1].h THEN Hits(R!At(T, k), L, 1, x, y) ELSE <<>>
+      fast == FastPath /\ hits # <<>> /\ Len(hits) = Len(im.hits) /\ hits[Len(hits)] = im.hits[Len(hits)]
       gone == SelectSeq(im.hits, LAMBDA h : \A i \in 1..Len(hits) : hits[i] # h)
       come == SelectSeq(hits, LAMBDA h : \A i \in 1..Len(im.hits) : im.hits[i] # h)
       notes == [i \in 1..Len(gone) |-> Offer(gone[i][1], "tgt", "leave", Nil)]
                \o [i \in 1..Len(come) |-> Offer(come[i][1], "tgt", "enter", Nil)]
-      ws == [i \in 1..Len(hits) |-> hits[i][1]]
-  IN [im |-> [im EXCEPT !.hits = hits, !.mouse = <<x, y>>],
-      offers |-> notes \o (IF hits = <<>> THEN <<>> ELSE Dispatch(T, ws, ws[Len(ws)], cls, cons, Consume))]
+  IN IF fast THEN [im |-> im, offers |-> <<>>] ELSE [im |-> [im EXCEPT !.hits = hits], offers |-> notes]
+
+(* mouseHandler.handleEvent: update against the last frame, then the three loops *)
+Mouse(T, im, x, y, cls, cons) ==
+  LET u  == Update(T, [im EXCEPT !.mouse = <<x, y>>], im.lay)
+      ws == [i \in 1..Len(u.im.hits) |-> u.im.hits[i][1]]
+  IN [im |-> u.im,
+      offers |-> u.offers \o (IF ws = <<>> THEN <<>> ELSE Dispatch(T, ws, ws[Len(ws)], cls, cons, Consume))]
 
 TFocusOut(im) ==
   [im |-> [im EXCEPT !.hits = <<>>, !.mouse = <<>>],
@@ -106,10 +123,13 @@ TFocusOut(im) ==
 TFocusIn(im) ==
   [im |-> im, offers |-> IF EnterOnFocusIn THEN <<Offer(1, "tgt", "enter", Nil)>> ELSE <<>>]
 
-(* one frame on an unchanged layout: layout, mouse update (no change), render, *)
-(* updatePath (refocus the root when the focused widget is not in the frame)   *)
-Frame(T, im) ==
-  IF R!Present(T, T.lays[1], im.focused) THEN [im |-> [im EXCEPT !.path = R!PathTo(T, im.focused)], offers |-> <<>>]
-  ELSE [im |-> [im EXCEPT !.focused = 1, !.path = <<1>>],
-        offers |-> <<Offer(im.focused, "tgt", "fout", Nil), Offer(1, "tgt", "fin", Nil)>>]
+(* one frame drawn from layout k: layout, mouse update, render, updatePath    *)
+(* (refocus the root when the focused widget is not in the frame)             *)
+Frame(T, im, k) ==
+  LET u == Update(T, im, k)
+      m == [u.im EXCEPT !.lay = k]
+  IN IF R!Present(R!At(T, k), T.lays[k], m.focused)
+     THEN [im |-> [m EXCEPT !.path = R!PathTo(R!At(T, k), m.focused)], offers |-> u.offers]
+     ELSE [im |-> [m EXCEPT !.focused = 1, !.path = <<1>>],
+           offers |-> u.offers \o <<Offer(m.focused, "tgt", "fout", Nil), Offer(1, "tgt", "fin", Nil)>>]
 =============================================================================
